@@ -20,7 +20,7 @@ for f in sorted(glob.glob('/verif/seeded/*/meta.json')):
     m = json.load(open(f))
     used.setdefault(m['property'], []).append(m['summary'])
 
-T = """You are helping test a verification effort for the Go module github.com/onflow/crypto (Flow blockchain crypto: BLS12-381 signatures via cgo+BLST, threshold signatures, DKG, ECDSA, SHA3/KMAC, ChaCha20 PRG). You have your own scratch git worktree of the repository at /tmp/seedwt_{id} (work ONLY there; never touch /repo or /verif, and do not read anything under /verif).
+T = """You are helping test a verification effort for the Go module github.com/onflow/crypto (Flow blockchain crypto: BLS12-381 signatures via cgo+BLST, threshold signatures, DKG, ECDSA, SHA3/KMAC, ChaCha20 PRG). You have your own scratch git worktree of the repository at /tmp/seedwt_{id} (work ONLY there; never touch /repo or /verif, and do not read anything under /verif or under /root/.claude).
 
 Here is a semantic property of the library that should hold:
 
